@@ -251,6 +251,15 @@ Proof.
     destruct (Z.ltb_spec (Z.of_nat k) M); cbn [length]; lia.
 Qed.
 
+Lemma count_below_seq' k : forall M : Z,
+  length (filter (fun i => (Z.of_nat i <? M)%Z) (seq 0 k)) = Z.to_nat (Z.min M (Z.of_nat k)).
+Proof.
+  induction k as [|k IH]; intros M.
+  - cbn [seq filter length]. lia.
+  - rewrite seq_S, filter_app, app_length, IH. cbn [plus filter].
+    destruct (Z.ltb_spec (Z.of_nat k) M); cbn [length]; lia.
+Qed.
+
 Lemma between_split (l : list Q) lo hi : lo <= hi ->
   (length (filter (fun p => Qle_bool lo p && negb (Qle_bool hi p)) l) + length (filter (fun p => negb (Qle_bool lo p)) l)
    = length (filter (fun p => negb (Qle_bool hi p)) l))%nat.
@@ -286,6 +295,12 @@ Lemma prog_below x : (0 <= Qceiling ((x - off) / d))%Z ->
 Proof.
   intros H0. rewrite filter_map_length. rewrite (filter_ext _ _ (prog_below_pointwise x)).
   now apply count_below_seq.
+Qed.
+
+Lemma prog_below' x :
+  length (filter (fun p => negb (Qle_bool x p)) (map g (seq 0 k))) = Z.to_nat (Z.min (Qceiling ((x - off) / d)) (Z.of_nat k)).
+Proof.
+  rewrite filter_map_length. rewrite (filter_ext _ _ (prog_below_pointwise x)). apply count_below_seq'.
 Qed.
 
 Lemma prog_sorted : StronglySorted Qle (map g (seq 0 k)).
@@ -398,6 +413,174 @@ Proof.
   lia.
 Qed.
 
+(** ** perturbed pointers and boundaries: every position is hit at most one draw away from floor/ceiling *)
+Lemma filter_length_F2 {A B} (f : A -> bool) (h : B -> bool) l l' :
+  Forall2 (fun a b => f a = true -> h b = true) l l' -> (length (filter f l) <= length (filter h l'))%nat.
+Proof.
+  induction 1 as [|a b l l' Hab _ IH]; [cbn; lia|]. cbn [filter]. destruct (f a) eqn:E.
+  - rewrite (Hab eq_refl). cbn [length]. lia.
+  - destruct (h b); cbn [length]; lia.
+Qed.
+
+Lemma Forall2_impl_in {A B} (P R : A -> B -> Prop) l l' :
+  Forall2 P l l' -> (forall a b, In a l -> In b l' -> P a b -> R a b) -> Forall2 R l l'.
+Proof.
+  induction 1 as [|a b l l' Hab _ IH]; intros H; constructor.
+  - apply H; [now left | now left | exact Hab].
+  - apply IH. intros x y Hx Hy. apply H; now right.
+Qed.
+
+Lemma Forall2_swap {A B} (R : A -> B -> Prop) l l' : Forall2 R l l' -> Forall2 (fun b a => R a b) l' l.
+Proof. induction 1; constructor; assumption. Qed.
+
+Lemma Forall2_nth_both {A B} (R : A -> B -> Prop) (da : A) (db : B) l l' :
+  Forall2 R l l' -> forall t, (t < length l)%nat -> R (nth t l da) (nth t l' db).
+Proof.
+  induction 1 as [|a b l l' Hab _ IH]; intros t Ht; [cbn in Ht; lia|].
+  destruct t as [|t]; [exact Hab|]. cbn [nth]. apply IH. cbn [length] in Ht. lia.
+Qed.
+
+Lemma Forall2_len {A B} (R : A -> B -> Prop) l l' : Forall2 R l l' -> length l = length l'.
+Proof. induction 1; cbn [length]; congruence. Qed.
+
+Definition betw (lo hi p : Q) : bool := Qle_bool lo p && negb (Qle_bool hi p).
+
+Lemma betw_true lo hi p : betw lo hi p = true <-> lo <= p /\ p < hi.
+Proof.
+  unfold betw. rewrite andb_true_iff, negb_true_iff, Qle_bool_iff. split; intros [H1 H2]; (split; [exact H1|]).
+  - destruct (Qlt_le_dec p hi) as [L|G]; [exact L|]. apply Qle_bool_iff in G. congruence.
+  - destruct (Qle_bool hi p) eqn:E; [|reflexivity]. apply Qle_bool_iff in E. lra.
+Qed.
+
+Lemma walk_robust (w : list Q) (tot : Q) (k : nat) (off dp dc : Q) (cs' ptrs' : list Q) (j : nat) :
+  Forall (fun x => 0 <= x) w -> tot == sumQ w -> 0 < tot -> (0 < k)%nat ->
+  0 <= dp -> 0 <= dc -> 2 * (dp + dc) < tot / inject_Z (Z.of_nat k) ->
+  0 <= off -> off < tot / inject_Z (Z.of_nat k) + (dp + dc) -> (j < length w)%nat ->
+  StronglySorted Qle cs' -> StronglySorted Qle ptrs' ->
+  Forall2 (fun a b => b - dc <= a /\ a <= b + dc) cs' (cumsum w) ->
+  Forall2 (fun a b => b - dp <= a /\ a <= b + dp) ptrs' (sus_ptrs_q tot k off) ->
+  (Qfloor (nth j w 0 * inject_Z (Z.of_nat k) / tot)%Q - 1
+   <= Z.of_nat (count_nat j (sus_walk cs' 0%nat ptrs'))
+   <= Qceiling (nth j w 0 * inject_Z (Z.of_nat k) / tot)%Q + 1)%Z.
+Proof.
+  intros Hw Htot Hpos Hk Hdp Hdc Heta Hoff0 Hoff Hj Scs Sptrs Ccs Cptrs.
+  set (kq := inject_Z (Z.of_nat k)) in *. set (d := tot / kq) in *. set (eta := dp + dc) in *.
+  assert (Hkq : 0 < kq). { unfold kq. change 0 with (inject_Z 0). rewrite <- Zlt_Qlt. lia. }
+  assert (Hd : 0 < d). { unfold d. apply Qlt_shift_div_l; [exact Hkq|lra]. }
+  assert (Edk : d * kq == tot). { unfold d. field. lra. }
+  assert (Heta0 : 0 <= eta) by (unfold eta; lra).
+  set (g := fun i : nat => off + d * inject_Z (Z.of_nat i)).
+  assert (Eptrs : sus_ptrs_q tot k off = map g (seq 0 k)) by reflexivity.
+  rewrite Eptrs in Cptrs.
+  assert (Lcs : length cs' = length w). { rewrite (Forall2_len _ _ _ Ccs). apply cumsum_from_length. }
+  (* every ideal pointer lies in [0, tot + eta) *)
+  assert (Hrange : forall p, In p (map g (seq 0 k)) -> 0 <= p /\ p < tot + eta).
+  { intros p Hp. apply in_map_iff in Hp as (i & E & Hi). apply in_seq in Hi. subst p. unfold g.
+    assert (H0 : 0 <= inject_Z (Z.of_nat i)). { change 0 with (inject_Z 0). rewrite <- Zle_Qle. lia. }
+    assert (H1 : inject_Z (Z.of_nat i) <= kq - 1).
+    { unfold kq. change 1 with (inject_Z 1). rewrite <- inject_Z_minus, <- Zle_Qle. lia. }
+    assert (H2 : 0 <= d * inject_Z (Z.of_nat i)) by (apply Qmult_le_0_compat; lra).
+    assert (H3 : d * inject_Z (Z.of_nat i) <= d * (kq - 1)) by (rewrite !(Qmult_comm d); apply Qmult_le_compat_r; lra).
+    split; [lra|]. assert (d * (kq - 1) == tot - d) by (rewrite <- Edk; ring). lra. }
+  rewrite walk_count; [| exact Scs | exact Sptrs | lia].
+  set (lo := psum w j). set (hi := psum w (S j)).
+  assert (Ehi : hi == lo + nth j w 0) by (apply psum_S; exact Hj).
+  assert (Hwj : 0 <= nth j w 0). { rewrite Forall_forall in Hw. apply Hw, nth_In, Hj. }
+  assert (Hlo0 : 0 <= lo). { unfold lo, psum. apply sumQ_nonneg. apply Forall_forall. intros x Hx.
+    rewrite Forall_forall in Hw. apply Hw. rewrite <- (firstn_skipn j w). apply in_or_app. now left. }
+  assert (Hhitot : hi <= tot). { rewrite Htot, <- psum_all. apply psum_mono; [exact Hw | lia]. }
+  (* the boundaries actually used are within dc of lo (for j >= 1) and hi *)
+  assert (Clo : (1 <= j)%nat -> lo - dc <= nth (j - 1) cs' 0 /\ nth (j - 1) cs' 0 <= lo + dc).
+  { intros Hj1. pose proof (Forall2_nth_both _ 0 0 _ _ Ccs (j - 1)%nat ltac:(lia)) as H. cbn beta in H.
+    assert (E : nth (j - 1) (cumsum w) 0 == lo).
+    { rewrite cumsum_nth by lia. unfold lo. replace (S (j - 1)) with j by lia. reflexivity. }
+    rewrite E in H. exact H. }
+  assert (Chi : hi - dc <= nth j cs' 0 /\ nth j cs' 0 <= hi + dc).
+  { pose proof (Forall2_nth_both _ 0 0 _ _ Ccs j ltac:(lia)) as H. cbn beta in H.
+    assert (E : nth j (cumsum w) 0 == hi) by (now apply cumsum_nth). rewrite E in H. exact H. }
+  assert (Elast : j = (length w - 1)%nat -> hi == tot).
+  { intros Ej. unfold hi. rewrite Htot, <- psum_all. replace (S j) with (length w) by lia. reflexivity. }
+  assert (Elo0 : j = 0%nat -> lo == 0) by (intros ->; reflexivity).
+  set (e := nth j w 0 * kq / tot).
+  assert (He0 : 0 <= e). { unfold e. apply Qle_shift_div_l; [exact Hpos|]. rewrite Qmult_0_l. apply Qmult_le_0_compat; lra. }
+  set (theta := 2 * eta / d).
+  assert (Hth0 : 0 <= theta). { unfold theta. apply Qle_shift_div_l; [exact Hd|]. lra. }
+  assert (Hth1 : theta < 1). { unfold theta. apply Qlt_shift_div_r; [exact Hd|]. lra. }
+  split.
+  - (* lower bound: the ideal pointers well inside the cell are selected *)
+    destruct (Qlt_le_dec (hi - eta) (lo + eta)) as [Small|Big].
+    + (* the cell is narrower than 2 eta < d: expected count below one *)
+      assert (He1 : e < 1).
+      { unfold e. apply Qlt_shift_div_r; [exact Hpos|]. assert (nth j w 0 < d) by lra.
+        assert (nth j w 0 * kq < d * kq) by (apply Qmult_lt_r; assumption). lra. }
+      pose proof (Qfloor_le e) as F1.
+      assert (H : inject_Z (Qfloor e) < inject_Z 1) by (change (inject_Z 1) with 1; lra).
+      rewrite <- Zlt_Qlt in H. lia.
+    + assert (HF : Forall2 (fun b a => betw (lo + eta) (hi - eta) b = true -> in_cell cs' j a = true) (map g (seq 0 k)) ptrs').
+      { apply (Forall2_swap (fun a b => betw (lo + eta) (hi - eta) b = true -> in_cell cs' j a = true)).
+        eapply Forall2_impl_in; [exact Cptrs|]. cbn beta. intros a b _ _ [Ca1 Ca2] Hb.
+        apply betw_true in Hb as [B1 B2]. unfold in_cell. apply andb_true_iff. split.
+        - destruct (Nat.eqb_spec j 0) as [|Nj]; [reflexivity|]. cbn [orb]. apply Qle_bool_iff.
+          destruct (Clo ltac:(lia)) as [_ C]. unfold eta in *. lra.
+        - rewrite Lcs. destruct (Nat.eqb_spec j (length w - 1)) as [|Nj]; [reflexivity|]. cbn [orb]. apply negb_true_iff.
+          destruct (Qle_bool (nth j cs' 0) a) eqn:E; [|reflexivity]. exfalso. apply Qle_bool_iff in E.
+          destruct Chi as [C _]. unfold eta in *. lra. }
+      pose proof (filter_length_F2 _ _ _ _ HF) as Hle.
+      pose proof (between_split (map g (seq 0 k)) (lo + eta) (hi - eta) Big) as Hsplit.
+      fold (betw (lo + eta) (hi - eta)) in Hsplit.
+      unfold g in Hsplit. rewrite !(prog_below' off d k Hd) in Hsplit. fold g in Hsplit.
+      set (Bhi := Qceiling ((hi - eta - off) / d)) in *. set (Blo := Qceiling ((lo + eta - off) / d)) in *.
+      assert (HBlo : (0 <= Blo)%Z).
+      { assert (H : inject_Z (-1) < inject_Z Blo).
+        { pose proof (Qle_ceiling ((lo + eta - off) / d)) as C. fold Blo in C. change (inject_Z (-1)) with (-(1)).
+          assert (-(1) < (lo + eta - off) / d). { apply Qlt_shift_div_l; [exact Hd|]. unfold eta in *. lra. } lra. }
+        rewrite <- Zlt_Qlt in H. lia. }
+      assert (HBhi : (Bhi <= Z.of_nat k)%Z).
+      { assert (H : (hi - eta - off) / d <= kq). { apply Qle_shift_div_r; [exact Hd|]. rewrite (Qmult_comm kq d), Edk. lra. }
+        apply Qceiling_resp_le in H. unfold kq in H. rewrite Qceiling_Z in H. exact H. }
+      pose proof (ceil_diff ((lo + eta - off) / d) (e - theta)) as CD.
+      assert (EB : (lo + eta - off) / d + (e - theta) == (hi - eta - off) / d).
+      { unfold e, theta, d. rewrite Ehi. field. split; lra. }
+      rewrite (Qceiling_comp _ _ EB) in CD. fold Bhi Blo in CD.
+      (* floor (e - theta) >= floor e - 1 *)
+      assert (HFl : (Qfloor e - 1 <= Qfloor (e - theta))%Z).
+      { pose proof (Qfloor_le e) as F1. pose proof (Qlt_floor (e - theta)) as F2.
+        assert (H : inject_Z (Qfloor e - 1) < inject_Z (Qfloor (e - theta) + 1)).
+        { rewrite inject_Z_minus. change (inject_Z 1) with 1. lra. }
+        rewrite <- Zlt_Qlt in H. lia. }
+      fold e. fold g in Hle. lia.
+  - (* upper bound: a selected pointer's ideal pointer lies in the cell widened by eta *)
+    assert (HF : Forall2 (fun a b => in_cell cs' j a = true -> betw (lo - eta) (hi + eta) b = true) ptrs' (map g (seq 0 k))).
+    { eapply Forall2_impl_in; [exact Cptrs|]. cbn beta. intros a b _ Hb [Ca1 Ca2] Hc.
+      destruct (Hrange b Hb) as [R0 R1]. apply betw_true. unfold in_cell in Hc. apply andb_true_iff in Hc as [H1 H2].
+      rewrite Lcs in H2. split.
+      - destruct (Nat.eqb_spec j 0) as [Ej|Nj].
+        + rewrite (Elo0 Ej). lra.
+        + cbn [orb] in H1. apply Qle_bool_iff in H1. destruct (Clo ltac:(lia)) as [C _]. unfold eta in *. lra.
+      - destruct (Nat.eqb_spec j (length w - 1)) as [Ej|Nj].
+        + rewrite (Elast Ej). exact R1.
+        + cbn [orb] in H2. apply negb_true_iff in H2.
+          destruct (Qlt_le_dec a (nth j cs' 0)) as [L|G]; [|apply Qle_bool_iff in G; congruence].
+          destruct Chi as [_ C]. unfold eta in *. lra. }
+    pose proof (filter_length_F2 _ _ _ _ HF) as Hle.
+    pose proof (between_split (map g (seq 0 k)) (lo - eta) (hi + eta) ltac:(lra)) as Hsplit.
+    fold (betw (lo - eta) (hi + eta)) in Hsplit.
+    unfold g in Hsplit. rewrite !(prog_below' off d k Hd) in Hsplit. fold g in Hsplit.
+    set (Ahi := Qceiling ((hi + eta - off) / d)) in *. set (Alo := Qceiling ((lo - eta - off) / d)) in *.
+    pose proof (ceil_diff ((lo - eta - off) / d) (e + theta)) as CD.
+    assert (EB : (lo - eta - off) / d + (e + theta) == (hi + eta - off) / d).
+    { unfold e, theta, d. rewrite Ehi. field. split; lra. }
+    rewrite (Qceiling_comp _ _ EB) in CD. fold Ahi Alo in CD.
+    pose proof (ceil_diff e theta) as CD2.
+    assert (HC1 : (Qceiling theta <= 1)%Z).
+    { pose proof (Qceiling_lt theta) as C. assert (H : inject_Z (Qceiling theta - 1) < inject_Z 1) by (change (inject_Z 1) with 1; lra).
+      rewrite <- Zlt_Qlt in H. lia. }
+    assert (HC0 : (0 <= Qceiling e)%Z).
+    { pose proof (Qle_ceiling e) as C. assert (H : inject_Z (-1) < inject_Z (Qceiling e)) by (change (inject_Z (-1)) with (-(1)); lra).
+      rewrite <- Zlt_Qlt in H. lia. }
+    fold e. fold g in Hle. lia.
+Qed.
+
 (** ** from positions in the sorted order back to element indices, through the shuffle *)
 Lemma sumQ_Permutation l l' : Permutation l l' -> sumQ l == sumQ l'.
 Proof.
@@ -430,23 +613,178 @@ Proof.
   - apply Nat.eqb_neq. intros E. apply NE. eapply NoDup_nth; eauto.
 Qed.
 
-Lemma sus_finish_some order k cs ptrs perm : (0 < length cs)%nat -> (0 < k)%nat ->
-  sus_finish order k cs ptrs perm = Some (permute 0%nat perm (gather 0%nat order (sus_walk cs 0 ptrs))).
+(** *** the walk never leaves the cumulative sums it is given (any pointers, sorted or not) *)
+Lemma walk_bound ptrs : forall cs ix, Forall (fun i => (i <= ix + (length cs - 1))%nat) (sus_walk cs ix ptrs).
 Proof.
-  intros Hc Hk. unfold sus_finish. destruct cs; [cbn in Hc; lia|]. destruct (Nat.eqb_spec k 0); [lia|reflexivity].
+  induction ptrs as [|p rest IH]; intros cs ix; [constructor|].
+  cbn [sus_walk]. rewrite advance_locate. pose proof (locate_bound cs p) as Hb. constructor; [lia|].
+  eapply Forall_impl; [|apply IH]. cbn beta. intros a Ha. rewrite skipn_length in Ha. lia.
+Qed.
+
+(** *** the elements of positive weight: in a non-increasing layout they come first *)
+Lemma npos_cons x t : npos (x :: t) = if Qle_bool x 0 then npos t else S (npos t).
+Proof. unfold npos. cbn [filter]. destruct (Qle_bool x 0); reflexivity. Qed.
+
+Lemma npos_le_length w : (npos w <= length w)%nat.
+Proof. induction w as [|x t IH]; [cbn; lia|]. rewrite npos_cons. cbn [length]. destruct (Qle_bool x 0); lia. Qed.
+
+Lemma npos_Permutation l l' : Permutation l l' -> npos l = npos l'.
+Proof.
+  induction 1 as [|x l l' _ IH|x y l|l l' l'' _ IH1 _ IH2]; [reflexivity| | |congruence].
+  - rewrite !npos_cons, IH. reflexivity.
+  - rewrite !npos_cons. destruct (Qle_bool x 0), (Qle_bool y 0); reflexivity.
+Qed.
+
+Lemma npos_zero_all w : Forall (fun y => y <= 0) w -> npos w = 0%nat.
+Proof.
+  induction 1 as [|x t Hx _ IH]; [reflexivity|]. rewrite npos_cons.
+  apply Qle_bool_iff in Hx. now rewrite Hx.
+Qed.
+
+Lemma npos_zero_inv w : npos w = 0%nat -> Forall (fun y => y <= 0) w.
+Proof.
+  induction w as [|x t IH]; [constructor|]. rewrite npos_cons. destruct (Qle_bool x 0) eqn:E; [|discriminate].
+  intros H. constructor; [now apply Qle_bool_iff | now apply IH].
+Qed.
+
+Lemma sumQ_nonpos l : Forall (fun x => x <= 0) l -> sumQ l <= 0.
+Proof. induction 1 as [|x l Hx _ IH]; [cbn; lra|]. rewrite sumQ_cons. lra. Qed.
+
+Lemma npos_ge1 w : 0 < sumQ w -> (1 <= npos w)%nat.
+Proof.
+  intros H. destruct (npos w) eqn:E; [|lia]. exfalso. pose proof (sumQ_nonpos w (npos_zero_inv w E)). lra.
+Qed.
+
+Lemma nonincr_tail x t : nonincr (x :: t) = true -> nonincr t = true.
+Proof. destruct t as [|y t']; [reflexivity|]. cbn [nonincr]. intros H. now apply andb_prop in H as [_ H]. Qed.
+
+Lemma nonincr_head_ge t : forall x, nonincr (x :: t) = true -> Forall (fun y => y <= x) t.
+Proof.
+  induction t as [|y t' IH]; intros x H; [constructor|].
+  cbn [nonincr] in H. apply andb_prop in H as [H1 H2]. apply Qle_bool_iff in H1.
+  constructor; [exact H1|]. eapply Forall_impl; [|apply (IH y H2)]. cbn beta. intros a Ha. lra.
+Qed.
+
+Lemma npos_split w : Forall (fun x => 0 <= x) w -> nonincr w = true ->
+  Forall (fun x => 0 < x) (firstn (npos w) w) /\ Forall (fun x => x == 0) (skipn (npos w) w).
+Proof.
+  induction w as [|x t IH]; intros Hw Hs; [split; constructor|].
+  inversion Hw as [|? ? Hx Ht]; subst. rewrite npos_cons. destruct (Qle_bool x 0) eqn:E.
+  - apply Qle_bool_iff in E. pose proof (nonincr_head_ge t x Hs) as Hle.
+    assert (Hz : Forall (fun y => y <= 0) t) by (eapply Forall_impl; [|exact Hle]; cbn beta; intros a Ha; lra).
+    rewrite (npos_zero_all t Hz). cbn [firstn skipn]. split; [constructor|].
+    constructor; [lra|]. rewrite Forall_forall in Hz, Ht |- *. intros y Hy. specialize (Hz y Hy). specialize (Ht y Hy). cbn beta in *. lra.
+  - destruct (IH Ht (nonincr_tail x t Hs)) as [F1 F2]. cbn [firstn skipn]. split; [|exact F2].
+    constructor; [|exact F1]. destruct (Qlt_le_dec 0 x) as [L|G]; [exact L|]. apply Qle_bool_iff in G. congruence.
+Qed.
+
+Lemma nth_firstn_lt {A} (d : A) : forall n (l : list A) i, (i < n)%nat -> nth i (firstn n l) d = nth i l d.
+Proof.
+  induction n as [|n IH]; intros l i Hi; [lia|]. destruct l as [|x t]; [reflexivity|].
+  destruct i as [|i]; [reflexivity|]. cbn [firstn nth]. apply IH. lia.
+Qed.
+
+Lemma Forall_firstn_nth {A} (P : A -> Prop) (d : A) n (l : list A) i :
+  Forall P (firstn n l) -> (i < n)%nat -> (i < length l)%nat -> P (nth i l d).
+Proof.
+  intros H Hi Hl. rewrite <- (nth_firstn_lt d n l i Hi). rewrite Forall_forall in H. apply H, nth_In.
+  rewrite firstn_length. lia.
+Qed.
+
+Lemma Forall_skipn_nth {A} (P : A -> Prop) (d : A) : forall n (l : list A) i,
+  Forall P (skipn n l) -> (n <= i)%nat -> (i < length l)%nat -> P (nth i l d).
+Proof.
+  induction n as [|n IH]; intros l i H Hn Hl.
+  - cbn [skipn] in H. rewrite Forall_forall in H. now apply H, nth_In.
+  - destruct l as [|x t]; [cbn in Hl; lia|]. destruct i as [|i]; [lia|]. cbn [skipn] in H. cbn [nth length] in *.
+    apply IH; [exact H | lia | lia].
+Qed.
+
+Lemma sumQ_app l l' : sumQ (l ++ l') == sumQ l + sumQ l'.
+Proof. induction l as [|x l IH]; [cbn [app]; change (sumQ (@nil Q)) with 0; lra|]. cbn [app]. rewrite !sumQ_cons, IH. lra. Qed.
+
+Lemma sumQ_zeros l : Forall (fun x => x == 0) l -> sumQ l == 0.
+Proof. induction 1 as [|x l Hx _ IH]; [reflexivity|]. rewrite sumQ_cons, Hx, IH. lra. Qed.
+
+Lemma cumsum_from_firstn n : forall l acc, firstn n (cumsum_from acc l) = cumsum_from acc (firstn n l).
+Proof.
+  induction n as [|n IH]; intros l acc; [reflexivity|]. destruct l as [|x t]; [reflexivity|].
+  cbn [cumsum_from firstn]. now rewrite IH.
+Qed.
+
+Lemma Forall2_firstn {A B} (R : A -> B -> Prop) n : forall l l', Forall2 R l l' -> Forall2 R (firstn n l) (firstn n l').
+Proof.
+  induction n as [|n IH]; intros l l' H; [constructor|]. destruct H as [|a b l l' Hab H]; [constructor|].
+  cbn [firstn]. constructor; [exact Hab | now apply IH].
+Qed.
+
+Lemma count_nat_notin i l : ~ In i l -> count_nat i l = 0%nat.
+Proof. intros H. unfold count_nat. now apply count_occ_not_In. Qed.
+
+Lemma sus_finish_some order k np cs ptrs perm : (0 < length cs)%nat -> (0 < k)%nat ->
+  sus_finish order k np cs ptrs perm = Some (permute 0%nat perm (gather 0%nat order (sus_walk (firstn np cs) 0 ptrs))).
+Proof.
+  intros Hc Hk. unfold sus_finish. destruct (Nat.eqb_spec k 0); [lia|]. destruct cs; [cbn in Hc; lia|reflexivity].
+Qed.
+
+Lemma sus_finish_zero order np cs ptrs perm : sus_finish order 0 np cs ptrs perm = Some [].
+Proof. reflexivity. Qed.
+
+(** whatever the cumulative sums and the pointers are (exact or binary64, sorted or not): every selected element has
+    positive weight — the walk is confined to the first [npos] positions of a non-increasing layout *)
+Lemma finish_positive (pq : list Q) order k cs ptrs perm sel :
+  Forall (fun x => 0 <= x) pq -> 0 < sumQ pq -> Permutation order (seq 0 (length pq)) ->
+  nonincr (gather 0 pq order) = true -> Permutation perm (seq 0 k) -> length ptrs = k ->
+  sus_finish order k (npos pq) cs ptrs perm = Some sel ->
+  forall i, In i sel -> (i < length pq)%nat /\ 0 < nth i pq 0.
+Proof.
+  intros Hp Htot Hord Hs Hperm Lptrs H i Hi.
+  unfold sus_finish in H. destruct (Nat.eqb k 0); [injection H as <-; destruct Hi|].
+  destruct cs as [|c0 cs0]; [discriminate|]. injection H as <-.
+  set (w := gather 0 pq order) in *. set (cs := c0 :: cs0) in *.
+  set (walk := sus_walk (firstn (npos pq) cs) 0 ptrs) in *.
+  assert (Lord : length order = length pq) by (rewrite (Permutation_length Hord); apply seq_length).
+  assert (Lw : length w = length pq) by (unfold w, gather; now rewrite map_length).
+  assert (Pw : Permutation w pq) by (apply (permute_Permutation 0 order pq); exact Hord).
+  assert (En : npos w = npos pq) by (now apply npos_Permutation).
+  assert (Hw : Forall (fun x => 0 <= x) w) by (eapply Permutation_Forall; [symmetry; exact Pw | exact Hp]).
+  assert (Hn1 : (1 <= npos pq)%nat). { rewrite <- En. apply npos_ge1. rewrite (sumQ_Permutation _ _ Pw). exact Htot. }
+  destruct (npos_split w Hw Hs) as [Fpos _]. rewrite En in Fpos.
+  unfold permute in Hi. apply in_map_iff in Hi as (t & Et & Ht).
+  assert (Lwalk : length walk = k) by (unfold walk; now rewrite walk_length).
+  assert (Ht' : (t < k)%nat). { apply (Permutation_in _ Hperm) in Ht. apply in_seq in Ht. lia. }
+  assert (Hin : In i (gather 0%nat order walk)).
+  { rewrite <- Et. apply nth_In. unfold gather. now rewrite map_length, Lwalk. }
+  unfold gather in Hin. apply in_map_iff in Hin as (pos & Ei & Hpos).
+  assert (Bpos : (pos < npos pq)%nat).
+  { pose proof (walk_bound ptrs (firstn (npos pq) cs) 0) as B. rewrite Forall_forall in B. specialize (B pos Hpos).
+    cbn beta in B. rewrite firstn_length in B. lia. }
+  pose proof (npos_le_length w) as Hnl. rewrite En, Lw in Hnl.
+  assert (Hio : In i order) by (rewrite <- Ei; apply nth_In; lia).
+  split.
+  - apply (Permutation_in _ Hord) in Hio. apply in_seq in Hio. lia.
+  - pose proof (Forall_firstn_nth (fun x => 0 < x) 0 (npos pq) w pos Fpos Bpos ltac:(lia)) as P. cbn beta in P.
+    unfold w in P. rewrite gather_nth in P by lia. now rewrite Ei in P.
 Qed.
 
 Theorem sus_q_spec (p : list Q) (order : list nat) (k : nat) (off : Q) (perm : list nat) :
-  Forall (fun x => 0 <= x) p -> 0 < sumQ p -> Permutation order (seq 0 (length p)) -> (0 < k)%nat ->
-  0 <= off -> off < sumQ p / inject_Z (Z.of_nat k) -> Permutation perm (seq 0 k) ->
+  Forall (fun x => 0 <= x) p -> 0 < sumQ p -> Permutation order (seq 0 (length p)) ->
+  nonincr (gather 0 p order) = true ->
+  ((0 < k)%nat -> 0 <= off /\ off < sumQ p / inject_Z (Z.of_nat k)) -> Permutation perm (seq 0 k) ->
   exists sel, sus_q p order k off perm = Some sel /\ length sel = k /\
     forall i, (i < length p)%nat ->
       (Qfloor (nth i p 0 * inject_Z (Z.of_nat k) / sumQ p)%Q <= Z.of_nat (count_nat i sel)
        <= Qceiling (nth i p 0 * inject_Z (Z.of_nat k) / sumQ p)%Q)%Z
       /\ (nth i p 0 == 0 -> count_nat i sel = 0%nat).
 Proof.
-  intros Hp Htot Hord Hk Hoff0 Hoff Hperm.
-  set (w := gather 0 p order).
+  intros Hp Htot Hord Hsort Hoffk Hperm.
+  destruct (Nat.eq_dec k 0) as [K0|K0].
+  { (* an output size of zero: the empty selection *)
+    subst k. exists []. split; [reflexivity|]. split; [reflexivity|]. intros i Hi.
+    assert (E0 : nth i p 0 * inject_Z (Z.of_nat 0) / sumQ p == 0) by (cbn [Z.of_nat]; unfold Qdiv; change (inject_Z 0) with 0; ring).
+    rewrite (Qfloor_comp _ _ E0), (Qceiling_comp _ _ E0). cbn. split; [lia | reflexivity]. }
+  assert (Hk : (0 < k)%nat) by lia. destruct (Hoffk Hk) as [Hoff0 Hoff]. clear Hoffk K0.
+  set (w := gather 0 p order). set (n := npos p). set (w' := firstn n w).
   assert (Lord : length order = length p) by (rewrite (Permutation_length Hord); apply seq_length).
   assert (Lw : length w = length p) by (unfold w, gather; now rewrite map_length).
   assert (Lp : (0 < length p)%nat). { destruct p; [cbn in Htot; lra | cbn; lia]. }
@@ -455,19 +793,26 @@ Proof.
   assert (Hw : Forall (fun x => 0 <= x) w).
   { unfold w, gather. apply Forall_forall. intros x Hx. apply in_map_iff in Hx as (i & E & _). subst. now apply nth_nonneg. }
   assert (Pw : Permutation w p). { apply (permute_Permutation 0 order p). exact Hord. }
-  assert (Etot : sumQ p == sumQ w) by (symmetry; now apply sumQ_Permutation).
+  assert (En : npos w = n) by (now apply npos_Permutation).
+  destruct (npos_split w Hw Hsort) as [Fpos Fzero]. rewrite En in Fpos, Fzero. fold w' in Fpos.
+  assert (Hnl : (n <= length p)%nat). { rewrite <- En, <- Lw. apply npos_le_length. }
+  assert (Lw' : length w' = n) by (unfold w'; rewrite firstn_length; lia).
+  assert (Hw' : Forall (fun x => 0 <= x) w') by (eapply Forall_impl; [|exact Fpos]; cbn beta; intros a Ha; lra).
+  assert (Etot : sumQ p == sumQ w').
+  { rewrite <- (sumQ_Permutation _ _ Pw). rewrite <- (firstn_skipn n w) at 1. fold w'. rewrite sumQ_app, (sumQ_zeros _ Fzero). lra. }
+  assert (Ecs : firstn n (cumsum w) = cumsum w') by apply cumsum_from_firstn.
   set (ptrs := sus_ptrs_q (sumQ p) k off).
-  set (walk := sus_walk (cumsum w) 0 ptrs).
+  set (walk := sus_walk (cumsum w') 0 ptrs).
   assert (Lptrs : length ptrs = k) by (unfold ptrs, sus_ptrs_q; now rewrite map_length, seq_length).
   assert (Lwalk : length walk = k) by (unfold walk; now rewrite walk_length).
-  assert (Sptrs : StronglySorted Qle ptrs).
-  { unfold ptrs. apply (prog_sorted off (sumQ p / inject_Z (Z.of_nat k)) k).
-    apply Qlt_shift_div_l; [change 0 with (inject_Z 0); rewrite <- Zlt_Qlt; lia | lra]. }
-  assert (Rwalk : Forall (fun ix => (ix < length order)%nat) walk).
-  { pose proof (walk_range (cumsum w) ptrs Sptrs) as H. eapply Forall_impl; [|exact H]. cbn. intros a Ha. lia. }
+  assert (Lcs' : length (cumsum w') = n) by (unfold cumsum; now rewrite cumsum_from_length).
+  assert (Hn1 : (1 <= n)%nat). { destruct n; [|lia]. exfalso. destruct w'; [cbn in Etot; lra | discriminate]. }
+  assert (Rwalk : Forall (fun ix => (ix < n)%nat) walk).
+  { pose proof (walk_bound ptrs (cumsum w') 0) as H. eapply Forall_impl; [|exact H]. cbn beta. intros a Ha. lia. }
+  assert (Rwalk' : Forall (fun ix => (ix < length order)%nat) walk) by (eapply Forall_impl; [|exact Rwalk]; cbn beta; intros a Ha; lia).
   exists (permute 0%nat perm (gather 0%nat order walk)).
   split; [|split].
-  - unfold sus_q. fold w. rewrite sus_finish_some by lia. reflexivity.
+  - unfold sus_q. fold w. fold n. rewrite sus_finish_some by lia. rewrite Ecs. reflexivity.
   - rewrite permute_length. rewrite (Permutation_length Hperm). apply seq_length.
   - intros i Hi.
     assert (Hin : In i order). { eapply Permutation_in; [symmetry; exact Hord | apply in_seq; lia]. }
@@ -477,10 +822,97 @@ Proof.
       - rewrite <- Ej. now apply gather_count.
       - apply permute_Permutation. unfold gather. rewrite map_length, Lwalk. exact Hperm. }
     assert (Ew : nth j w 0 = nth i p 0). { unfold w. rewrite gather_nth by exact Hj. now rewrite Ej. }
-    pose proof (sus_cell_count w (sumQ p) k off j Hw Etot Htot Hk Hoff0 Hoff ltac:(lia)) as H.
-    fold ptrs in H. fold walk in H. rewrite Ew in H. rewrite Ecount. split; [exact H|].
-    intros Hz. assert (E0 : nth i p 0 * inject_Z (Z.of_nat k) / sumQ p == 0) by (rewrite Hz; field; lra).
-    rewrite (Qceiling_comp _ _ E0) in H. change (Qceiling 0) with 0%Z in H. lia.
+    rewrite Ecount. destruct (Nat.lt_ge_cases j n) as [Jn|Jn].
+    + (* an element of positive weight: the counting theorem on the positive prefix *)
+      assert (Ew' : nth j w' 0 = nth i p 0) by (unfold w'; rewrite nth_firstn_lt by exact Jn; exact Ew).
+      pose proof (sus_cell_count w' (sumQ p) k off j Hw' Etot Htot Hk Hoff0 Hoff ltac:(lia)) as H.
+      fold ptrs in H. fold walk in H. rewrite Ew' in H. split; [exact H|].
+      intros Hz. assert (E0 : nth i p 0 * inject_Z (Z.of_nat k) / sumQ p == 0) by (rewrite Hz; field; lra).
+      rewrite (Qceiling_comp _ _ E0) in H. change (Qceiling 0) with 0%Z in H. lia.
+    + (* an element of the zero-weight tail: never reached *)
+      assert (Ec0 : count_nat j walk = 0%nat).
+      { apply count_nat_notin. intros Hc. rewrite Forall_forall in Rwalk. specialize (Rwalk j Hc). cbn beta in Rwalk. lia. }
+      assert (Hz : nth i p 0 == 0).
+      { rewrite <- Ew. apply (Forall_skipn_nth (fun x => x == 0) 0 n w j Fzero Jn). lia. }
+      assert (E0 : nth i p 0 * inject_Z (Z.of_nat k) / sumQ p == 0) by (rewrite Hz; field; lra).
+      rewrite (Qfloor_comp _ _ E0), (Qceiling_comp _ _ E0), Ec0. cbn. split; [lia | reflexivity].
+Qed.
+
+Lemma SS_firstn {A} (R : A -> A -> Prop) n : forall l, StronglySorted R l -> StronglySorted R (firstn n l).
+Proof.
+  induction n as [|n IH]; intros l H; [constructor|]. destruct H as [|a l Hl Ha]; [constructor|].
+  cbn [firstn]. constructor; [apply IH; exact Hl|].
+  apply Forall_forall. intros x Hx. rewrite Forall_forall in Ha. apply Ha. rewrite <- (firstn_skipn n l). apply in_or_app. now left.
+Qed.
+
+(** perturbed pointers and cumulative sums (in particular the binary64 ones, see [sus_f_within_one]): when they stay within
+    dp resp. dc of the exact ones and 2(dp+dc) is below the pointer distance, every element is drawn at most one draw
+    away from floor/ceiling of its expected count; the offset may exceed the exact pointer distance by dp+dc *)
+Lemma finish_within_one (pq : list Q) order k off perm (dp dc : Q) (cs' ptrs' : list Q) :
+  Forall (fun x => 0 <= x) pq -> 0 < sumQ pq -> Permutation order (seq 0 (length pq)) ->
+  nonincr (gather 0 pq order) = true -> (0 < k)%nat -> Permutation perm (seq 0 k) ->
+  0 <= dp -> 0 <= dc -> 2 * (dp + dc) < sumQ pq / inject_Z (Z.of_nat k) ->
+  0 <= off -> off < sumQ pq / inject_Z (Z.of_nat k) + (dp + dc) ->
+  StronglySorted Qle cs' -> StronglySorted Qle ptrs' ->
+  Forall2 (fun a b => b - dc <= a /\ a <= b + dc) cs' (cumsum (gather 0 pq order)) ->
+  Forall2 (fun a b => b - dp <= a /\ a <= b + dp) ptrs' (sus_ptrs_q (sumQ pq) k off) ->
+  exists sel, sus_finish order k (npos pq) cs' ptrs' perm = Some sel /\ length sel = k /\
+    forall i, (i < length pq)%nat ->
+      (Qfloor (nth i pq 0 * inject_Z (Z.of_nat k) / sumQ pq)%Q - 1 <= Z.of_nat (count_nat i sel)
+       <= Qceiling (nth i pq 0 * inject_Z (Z.of_nat k) / sumQ pq)%Q + 1)%Z.
+Proof.
+  intros Hp Htot Hord Hsort Hk Hperm Hdp Hdc Heta Hoff0 Hoff Scs Sptrs Ccs Cptrs.
+  set (w := gather 0 pq order) in *. set (n := npos pq). set (w' := firstn n w).
+  assert (Lord : length order = length pq) by (rewrite (Permutation_length Hord); apply seq_length).
+  assert (Lw : length w = length pq) by (unfold w, gather; now rewrite map_length).
+  assert (Lp : (0 < length pq)%nat). { destruct pq; [cbn in Htot; lra | cbn; lia]. }
+  assert (Lcs : length cs' = length pq). { rewrite (Forall2_len _ _ _ Ccs). unfold cumsum. now rewrite cumsum_from_length. }
+  assert (NDord : NoDup order). { eapply Permutation_NoDup; [symmetry; exact Hord | apply seq_NoDup]. }
+  assert (Pw : Permutation w pq). { apply (permute_Permutation 0 order pq). exact Hord. }
+  assert (Hw : Forall (fun x => 0 <= x) w) by (eapply Permutation_Forall; [symmetry; exact Pw | exact Hp]).
+  assert (En : npos w = n) by (now apply npos_Permutation).
+  destruct (npos_split w Hw Hsort) as [Fpos Fzero]. rewrite En in Fpos, Fzero. fold w' in Fpos.
+  assert (Hnl : (n <= length pq)%nat). { rewrite <- En, <- Lw. apply npos_le_length. }
+  assert (Lw' : length w' = n) by (unfold w'; rewrite firstn_length; lia).
+  assert (Hw' : Forall (fun x => 0 <= x) w') by (eapply Forall_impl; [|exact Fpos]; cbn beta; intros a Ha; lra).
+  assert (Etot : sumQ pq == sumQ w').
+  { rewrite <- (sumQ_Permutation _ _ Pw). rewrite <- (firstn_skipn n w) at 1. fold w'. rewrite sumQ_app, (sumQ_zeros _ Fzero). lra. }
+  assert (Ecs : firstn n (cumsum w) = cumsum w') by apply cumsum_from_firstn.
+  set (cs'' := firstn n cs').
+  assert (Ccs'' : Forall2 (fun a b => b - dc <= a /\ a <= b + dc) cs'' (cumsum w')).
+  { rewrite <- Ecs. now apply Forall2_firstn. }
+  assert (Scs'' : StronglySorted Qle cs'') by (now apply SS_firstn).
+  set (walk := sus_walk cs'' 0 ptrs').
+  assert (Lptrs : length ptrs' = k). { rewrite (Forall2_len _ _ _ Cptrs). unfold sus_ptrs_q. now rewrite map_length, seq_length. }
+  assert (Lwalk : length walk = k) by (unfold walk; now rewrite walk_length).
+  assert (Lcs'' : length cs'' = n) by (unfold cs''; rewrite firstn_length; lia).
+  assert (Hn1 : (1 <= n)%nat). { destruct n; [|lia]. exfalso. destruct w'; [cbn in Etot; lra | discriminate]. }
+  assert (Rwalk : Forall (fun ix => (ix < n)%nat) walk).
+  { pose proof (walk_bound ptrs' cs'' 0) as H. eapply Forall_impl; [|exact H]. cbn beta. intros a Ha. lia. }
+  assert (Rwalk' : Forall (fun ix => (ix < length order)%nat) walk) by (eapply Forall_impl; [|exact Rwalk]; cbn beta; intros a Ha; lia).
+  exists (permute 0%nat perm (gather 0%nat order walk)).
+  split; [|split].
+  - fold n. rewrite sus_finish_some by lia. reflexivity.
+  - rewrite permute_length. rewrite (Permutation_length Hperm). apply seq_length.
+  - intros i Hi.
+    assert (Hin : In i order). { eapply Permutation_in; [symmetry; exact Hord | apply in_seq; lia]. }
+    destruct (In_nth order i 0%nat Hin) as (j & Hj & Ej).
+    assert (Ecount : count_nat i (permute 0%nat perm (gather 0%nat order walk)) = count_nat j walk).
+    { rewrite (count_nat_Permutation i _ (gather 0%nat order walk)).
+      - rewrite <- Ej. now apply gather_count.
+      - apply permute_Permutation. unfold gather. rewrite map_length, Lwalk. exact Hperm. }
+    assert (Ew : nth j w 0 = nth i pq 0). { unfold w. rewrite gather_nth by exact Hj. now rewrite Ej. }
+    rewrite Ecount. destruct (Nat.lt_ge_cases j n) as [Jn|Jn].
+    + assert (Ew' : nth j w' 0 = nth i pq 0) by (unfold w'; rewrite nth_firstn_lt by exact Jn; exact Ew).
+      pose proof (walk_robust w' (sumQ pq) k off dp dc cs'' ptrs' j Hw' Etot Htot Hk Hdp Hdc Heta Hoff0 Hoff ltac:(lia)
+                    Scs'' Sptrs Ccs'' Cptrs) as H.
+      fold walk in H. rewrite Ew' in H. exact H.
+    + assert (Ec0 : count_nat j walk = 0%nat).
+      { apply count_nat_notin. intros Hc. rewrite Forall_forall in Rwalk. specialize (Rwalk j Hc). cbn beta in Rwalk. lia. }
+      assert (Hz : nth i pq 0 == 0).
+      { rewrite <- Ew. apply (Forall_skipn_nth (fun x => x == 0) 0 n w j Fzero Jn). lia. }
+      assert (E0 : nth i pq 0 * inject_Z (Z.of_nat k) / sumQ pq == 0) by (rewrite Hz; field; lra).
+      rewrite (Qfloor_comp _ _ E0), (Qceiling_comp _ _ E0), Ec0. cbn. lia.
 Qed.
 
 (** * 4. outcross_shuffle *)
@@ -685,15 +1117,111 @@ Qed.
 From Coq Require Import PrimFloat.
 Local Open Scope Q_scope.
 
-Lemma sus_f_count (p : list float) order k off perm : p <> [] -> (0 < k)%nat -> length perm = k ->
+(** exactly k draws, for every output size including zero *)
+Lemma sus_f_count (p : list float) order k off perm : ((0 < k)%nat -> p <> []) -> length perm = k ->
   length order = length p ->
   exists sel, sus_f p order k off perm = Some sel /\ length sel = k.
 Proof.
-  intros Hp Hk Hl Ho. unfold sus_f. rewrite sus_finish_some.
+  intros Hp Hl Ho. destruct (Nat.eq_dec k 0) as [->|K0]; [exists []; split; reflexivity|].
+  assert (Hk : (0 < k)%nat) by lia. specialize (Hp Hk).
+  unfold sus_f. rewrite sus_finish_some.
   - eexists. split; [reflexivity|]. now rewrite permute_length.
   - rewrite map_length. unfold gather. destruct order as [|o os]; [destruct p; [congruence | discriminate]|].
     cbn [map fcumsum length]. lia.
   - exact Hk.
+Qed.
+
+(** an output size of zero: the empty selection, whatever the other arguments are *)
+Lemma sus_f_size_zero (p : list float) order off perm : sus_f p order 0 off perm = Some [].
+Proof. reflexivity. Qed.
+Lemma sus_q_size_zero (p : list Q) order off perm : sus_q p order 0 off perm = Some [].
+Proof. reflexivity. Qed.
+
+(** never an element of zero weight — for the binary64 pointers and cumulative sums as they are, whatever the rounding:
+    every selected element has positive weight *)
+Theorem sus_f_no_zero_weight (p : list float) order k off perm sel :
+  let pq := map f2q p in
+  Forall (fun x => 0 <= x) pq -> 0 < sumQ pq -> Permutation order (seq 0 (length p)) ->
+  nonincr (gather 0 pq order) = true -> Permutation perm (seq 0 k) ->
+  sus_f p order k off perm = Some sel ->
+  (forall i, In i sel -> (i < length p)%nat /\ 0 < nth i pq 0) /\
+  (forall i, nth i pq 0 == 0 -> count_nat i sel = 0%nat).
+Proof.
+  intros pq Hp Htot Hord Hs Hperm H.
+  assert (Lpq : length pq = length p) by (unfold pq; apply map_length).
+  assert (A : forall i, In i sel -> (i < length pq)%nat /\ 0 < nth i pq 0).
+  { unfold sus_f in H. fold pq in H. eapply (finish_positive pq order k _ _ perm sel Hp Htot); [ | exact Hs | exact Hperm | | exact H].
+    - now rewrite Lpq.
+    - unfold sus_ptrs_f. now rewrite !map_length, seq_length. }
+  split.
+  - intros i Hi. rewrite <- Lpq. now apply A.
+  - intros i Hz. apply count_nat_notin. intros Hi. destruct (A i Hi) as [_ P]. lra.
+Qed.
+
+(** the binary64 walk is at most one draw per element away from floor/ceiling, under explicit closeness of the binary64
+    pointers and cumulative sums to the exact ones ([sus_near] checks them with dp = dc = an eighth of the pointer distance) *)
+Theorem sus_f_within_one (p : list float) order k off perm (dp dc : Q) :
+  let pq := map f2q p in
+  Forall (fun x => 0 <= x) pq -> 0 < sumQ pq -> Permutation order (seq 0 (length p)) ->
+  nonincr (gather 0 pq order) = true -> (0 < k)%nat -> Permutation perm (seq 0 k) ->
+  0 <= dp -> 0 <= dc -> 2 * (dp + dc) < sumQ pq / inject_Z (Z.of_nat k) ->
+  0 <= f2q off -> f2q off < sumQ pq / inject_Z (Z.of_nat k) + (dp + dc) ->
+  StronglySorted Qle (map f2q (fcumsum (gather 0%float p order))) ->
+  StronglySorted Qle (map f2q (sus_ptrs_f (fsum p) k off)) ->
+  Forall2 (fun a b => b - dc <= a /\ a <= b + dc) (map f2q (fcumsum (gather 0%float p order))) (cumsum (gather 0 pq order)) ->
+  Forall2 (fun a b => b - dp <= a /\ a <= b + dp) (map f2q (sus_ptrs_f (fsum p) k off)) (sus_ptrs_q (sumQ pq) k (f2q off)) ->
+  exists sel, sus_f p order k off perm = Some sel /\ length sel = k /\
+    forall i, (i < length p)%nat ->
+      (Qfloor (nth i pq 0 * inject_Z (Z.of_nat k) / sumQ pq)%Q - 1 <= Z.of_nat (count_nat i sel)
+       <= Qceiling (nth i pq 0 * inject_Z (Z.of_nat k) / sumQ pq)%Q + 1)%Z.
+Proof.
+  intros pq Hp Htot Hord Hsort Hk Hperm Hdp Hdc Heta Hoff0 Hoff Scs Sptrs Ccs Cptrs.
+  assert (Lpq : length pq = length p) by (unfold pq; apply map_length).
+  rewrite <- Lpq in Hord.
+  destruct (finish_within_one pq order k (f2q off) perm dp dc _ _ Hp Htot Hord Hsort Hk Hperm Hdp Hdc Heta Hoff0 Hoff Scs Sptrs Ccs Cptrs)
+    as (sel & E & L & C).
+  exists sel. split; [exact E|]. split; [exact L|]. intros i Hi. apply C. now rewrite Lpq.
+Qed.
+
+Lemma list_eqb_Forall2 {A} (f : A -> A -> bool) l : forall l', list_eqb f l l' = true -> Forall2 (fun a b => f a b = true) l l'.
+Proof.
+  induction l as [|a l IH]; intros [|b l'] H; cbn [list_eqb] in H; try discriminate; [constructor|].
+  apply andb_prop in H as [H1 H2]. constructor; [exact H1 | now apply IH].
+Qed.
+
+Lemma qnear_sound e a b : qnear e a b = true -> b - e <= a /\ a <= b + e.
+Proof. unfold qnear. intros H. apply andb_prop in H as [H1 H2]. split; now apply Qle_bool_iff. Qed.
+
+Lemma nondecr_sorted l : nondecr l = true -> StronglySorted Qle l.
+Proof.
+  induction l as [|x t IH]; intros H; [constructor|]. destruct t as [|y t'].
+  - constructor; constructor.
+  - cbn [nondecr] in H. apply andb_prop in H as [H1 H2]. apply Qle_bool_iff in H1. specialize (IH H2).
+    constructor; [exact IH|]. inversion IH as [|? ? _ Hall]; subst. constructor; [exact H1|].
+    eapply Forall_impl; [|exact Hall]. cbn beta. intros a Ha. lra.
+Qed.
+
+(** the computational check made for every generated case implies the numerical hypotheses of [sus_f_within_one] *)
+Lemma sus_near_sound (p : list float) order k off : (0 < k)%nat -> sus_near p order k off = true ->
+  let pq := map f2q p in let e := sumQ pq / inject_Z (Z.of_nat k) / 8 in
+  0 <= e /\ 0 <= f2q off /\ f2q off < sumQ pq / inject_Z (Z.of_nat k) + (e + e) /\
+  StronglySorted Qle (map f2q (fcumsum (gather 0%float p order))) /\
+  StronglySorted Qle (map f2q (sus_ptrs_f (fsum p) k off)) /\
+  Forall2 (fun a b => b - e <= a /\ a <= b + e) (map f2q (fcumsum (gather 0%float p order))) (cumsum (gather 0 pq order)) /\
+  Forall2 (fun a b => b - e <= a /\ a <= b + e) (map f2q (sus_ptrs_f (fsum p) k off)) (sus_ptrs_q (sumQ pq) k (f2q off)).
+Proof.
+  intros Hk H pq e. unfold sus_near in H. fold pq in H. fold e in H.
+  repeat (apply andb_prop in H as [H ?]).
+  repeat split.
+  - now apply Qle_bool_iff.
+  - now apply Qle_bool_iff.
+  - match goal with Hn : negb _ = true |- _ => apply negb_true_iff in Hn; rename Hn into Hlt end.
+    destruct (Qlt_le_dec (f2q off) (sumQ pq / inject_Z (Z.of_nat k) + (e + e))) as [L|G]; [exact L|].
+    apply Qle_bool_iff in G. congruence.
+  - now apply nondecr_sorted.
+  - now apply nondecr_sorted.
+  - eapply Forall2_impl_in; [apply list_eqb_Forall2; eassumption|]. cbn beta. intros a b _ _. apply qnear_sound.
+  - eapply Forall2_impl_in; [apply list_eqb_Forall2; eassumption|]. cbn beta. intros a b _ _. apply qnear_sound.
 Qed.
 
 (** if every binary64 pointer falls into the same cell as the ideal pointer (and the cumulative sums are exact),
@@ -710,40 +1238,24 @@ Qed.
 
 Lemma sus_f_partial (p : list float) order k off perm :
   let pq := map f2q p in
-  let cs := cumsum (gather 0 pq order) in
-  Forall2 Qeq (map f2q (fcumsum (gather 0%float p order))) cs ->
-  (0 < k)%nat -> 0 <= sumQ pq / inject_Z (Z.of_nat k) ->
+  let cs := firstn (npos pq) (cumsum (gather 0 pq order)) in
+  Forall2 Qeq (map f2q (fcumsum (gather 0%float p order))) (cumsum (gather 0 pq order)) ->
+  0 <= sumQ pq / inject_Z (Z.of_nat k) ->
   StronglySorted Qle (map f2q (sus_ptrs_f (fsum p) k off)) ->
   Forall2 (fun a b => locate cs a = locate cs b) (map f2q (sus_ptrs_f (fsum p) k off)) (sus_ptrs_q (sumQ pq) k (f2q off)) ->
   sus_f p order k off perm = sus_q pq order k (f2q off) perm.
 Proof.
-  intros pq cs Ecs Hk Hd Hs Hsame. unfold sus_f, sus_q. fold pq. fold cs.
+  intros pq cs Ecs Hd Hs Hsame. unfold sus_f, sus_q. fold pq.
   set (csf := map f2q (fcumsum (gather 0%float p order))) in *.
-  unfold sus_finish. destruct (Nat.eqb k 0); [destruct csf, cs; try reflexivity; inversion Ecs|].
-  assert (W : sus_walk csf 0 (map f2q (sus_ptrs_f (fsum p) k off)) = sus_walk cs 0 (sus_ptrs_q (sumQ pq) k (f2q off))).
+  set (csq := cumsum (gather 0 pq order)) in *.
+  unfold sus_finish. destruct (Nat.eqb k 0); [reflexivity|].
+  assert (W : sus_walk (firstn (npos pq) csf) 0 (map f2q (sus_ptrs_f (fsum p) k off))
+              = sus_walk cs 0 (sus_ptrs_q (sumQ pq) k (f2q off))).
   { rewrite !walk_locate; [| | exact Hs].
-    - cbn [plus]. rewrite (map_ext _ (locate cs)) by (intros a; now apply locate_Qeq). now apply Forall2_map_eq.
+    - cbn [plus]. rewrite (map_ext _ (locate cs)) by (intros a; apply locate_Qeq; now apply Forall2_firstn).
+      now apply Forall2_map_eq.
     - apply (prog_sorted_nonneg (f2q off) (sumQ pq / inject_Z (Z.of_nat k)) k Hd). }
-  destruct csf, cs; try reflexivity; try (inversion Ecs; fail). now rewrite W.
-Qed.
-
-(** a position of zero weight (its cumulative weight equals the previous one) is never selected, provided — when it is the
-    last position — every pointer stays strictly below the total; this is exactly what the rounded last pointer violates *)
-Lemma walk_zero_cell cs ptrs j : StronglySorted Qle cs -> StronglySorted Qle ptrs -> (1 <= j < length cs)%nat ->
-  nth j cs 0 == nth (j - 1) cs 0 ->
-  (j = (length cs - 1)%nat -> Forall (fun p => p < nth j cs 0) ptrs) ->
-  count_nat j (sus_walk cs 0 ptrs) = 0%nat.
-Proof.
-  intros Hc Hp Hj Ez Hlast. rewrite walk_count by (try assumption; lia).
-  assert (E : filter (in_cell cs j) ptrs = []); [|now rewrite E].
-  assert (F : forall p, In p ptrs -> in_cell cs j p = false);
-    [|clear - F; induction ptrs as [|q l IH]; [reflexivity|]; cbn [filter]; rewrite (F q (or_introl eq_refl)); apply IH; intros; apply F; now right].
-  intros p Hin. unfold in_cell. destruct (Nat.eqb_spec j 0) as [|_]; [lia|]. cbn [orb].
-  destruct (Qle_bool (nth (j - 1) cs 0) p) eqn:E1; [|reflexivity]. cbn [andb].
-  apply Qle_bool_iff in E1.
-  destruct (Nat.eqb_spec j (length cs - 1)) as [El|Nl]; cbn [orb].
-  - exfalso. specialize (Hlast El). rewrite Forall_forall in Hlast. specialize (Hlast p Hin). lra.
-  - apply negb_false_iff. apply Qle_bool_iff. lra.
+  destruct csf, csq; try reflexivity; try (inversion Ecs; fail). now rewrite W.
 Qed.
 
 (** ** counterexamples by computation *)
@@ -753,32 +1265,46 @@ Ltac qlt := apply Qlt_alt; vm_compute; reflexivity.
 (** binary64 pointers: p = [1,1], k = 98, offset 0.0 — 49*fl(1/49) < 1, so the element sorted first gets 50 draws *)
 Lemma sus_f_floor_ceil_refuted :
   exists (p : list float) (order : list nat) (k : nat) (off : float) (perm sel : list nat) (i : nat),
-    Forall (fun x => 0 <= f2q x) p /\ 0 < sumQ (map f2q p) /\ Permutation order (seq 0 (length p)) /\ (0 < k)%nat /\
+    Forall (fun x => 0 <= f2q x) p /\ 0 < sumQ (map f2q p) /\ Permutation order (seq 0 (length p)) /\
+    nonincr (gather 0 (map f2q p) order) = true /\ (0 < k)%nat /\
     0 <= f2q off /\ f2q off < sumQ (map f2q p) / inject_Z (Z.of_nat k) /\ PrimFloat.ltb off (sus_dist_f (fsum p) k) = true /\
     Permutation perm (seq 0 k) /\ sus_f p order k off perm = Some sel /\ (i < length p)%nat /\
     (Qceiling (nth i (map f2q p) 0 * inject_Z (Z.of_nat k) / sumQ (map f2q p))%Q < Z.of_nat (count_nat i sel))%Z.
 Proof.
   exists [1%float; 1%float], [1%nat; 0%nat], 98%nat, 0%float, (seq 0 98).
   eexists. exists 1%nat.
-  split; [repeat constructor; qle|]. split; [qlt|]. split; [apply perm_swap|]. split; [lia|].
+  split; [repeat constructor; qle|]. split; [qlt|]. split; [apply perm_swap|]. split; [vm_compute; reflexivity|]. split; [lia|].
   split; [qle|]. split; [qlt|]. split; [vm_compute; reflexivity|]. split; [reflexivity|].
   split; [vm_compute; reflexivity|]. split; [cbn; lia|]. vm_compute. reflexivity.
 Qed.
 
-(** binary64 pointers: p = [2.5,1,0], k = 4, offset = pred(0.875) = 0.875*(1-2^-53) — the last pointer rounds up to
-    the total 3.5 and the zero-weight element is selected *)
-Lemma sus_f_zero_weight_refuted :
+(** the code before commit eabf766a, binary64 pointers: p = [2.5,1,0], k = 4, offset = pred(0.875) = 0.875*(1-2^-53) — the
+    last pointer rounds up to the total 3.5 and the walk ran on to the zero-weight element; the repaired walk does not *)
+Lemma sus_old_zero_weight_refuted :
   exists (p : list float) (order : list nat) (k : nat) (off : float) (perm sel : list nat) (i : nat),
-    Forall (fun x => 0 <= f2q x) p /\ 0 < sumQ (map f2q p) /\ Permutation order (seq 0 (length p)) /\ (0 < k)%nat /\
+    Forall (fun x => 0 <= f2q x) p /\ 0 < sumQ (map f2q p) /\ Permutation order (seq 0 (length p)) /\
+    nonincr (gather 0 (map f2q p) order) = true /\ (0 < k)%nat /\
     0 <= f2q off /\ f2q off < sumQ (map f2q p) / inject_Z (Z.of_nat k) /\ PrimFloat.ltb off (sus_dist_f (fsum p) k) = true /\
-    Permutation perm (seq 0 k) /\ sus_f p order k off perm = Some sel /\ (i < length p)%nat /\
-    nth i (map f2q p) 0 == 0 /\ (0 < count_nat i sel)%nat.
+    Permutation perm (seq 0 k) /\ old_sus_f p order k off perm = Some sel /\ (i < length p)%nat /\
+    nth i (map f2q p) 0 == 0 /\ (0 < count_nat i sel)%nat /\
+    exists sel', sus_f p order k off perm = Some sel' /\ count_nat i sel' = 0%nat.
 Proof.
   exists [2.5%float; 1%float; 0%float], [0%nat; 1%nat; 2%nat], 4%nat, (0x1.bffffffffffffp-1)%float, (seq 0 4).
   eexists. exists 2%nat.
-  split; [repeat constructor; qle|]. split; [qlt|]. split; [reflexivity|]. split; [lia|].
+  split; [repeat constructor; qle|]. split; [qlt|]. split; [reflexivity|]. split; [vm_compute; reflexivity|]. split; [lia|].
   split; [qle|]. split; [qlt|]. split; [vm_compute; reflexivity|]. split; [reflexivity|].
-  split; [vm_compute; reflexivity|]. split; [cbn; lia|]. split; [vm_compute; reflexivity|]. vm_compute. lia.
+  split; [vm_compute; reflexivity|]. split; [cbn; lia|]. split; [vm_compute; reflexivity|].
+  split; [vm_compute; lia|]. eexists. split; vm_compute; reflexivity.
+Qed.
+
+(** the code before commit f3dafbe4: an output size of zero raised (IndexError) instead of returning no draws *)
+Lemma sus_old_size_zero_refuted :
+  exists (p : list float) (order : list nat) (off : float) (perm : list nat),
+    p <> [] /\ Permutation order (seq 0 (length p)) /\ Permutation perm (seq 0 0) /\
+    old_sus_f p order 0 off perm = None /\ sus_f p order 0 off perm = Some [].
+Proof.
+  exists [1%float; 2%float], [1%nat; 0%nat], 0%float, [].
+  split; [discriminate|]. split; [apply perm_swap|]. split; [reflexivity|]. split; reflexivity.
 Qed.
 
 (** the code before commit 2efef9f2: strict comparison, offset 0 — p = [1,1], k = 2 selects the first element twice *)
